@@ -142,7 +142,18 @@ RecvPex(st, m) ==
 (* event for the scheduler (only while a fast sync is in progress: r.events non-nil), or                          *)
 (* reporter.Report(BadMessage) = Switch.StopPeerForError.  What the scheduler / processor routines then do        *)
 (* with the events (solicited or not, duplicates, ...) is family `blocksync` (specs/blocksync).                   *)
-(* state: sync (fast sync in progress), top (height of the node's block store; blocks 1..top exist)               *)
+(* state: sync (fast sync in progress), top (height of the node's block store; blocks 1..top exist),              *)
+(* rl (read locks on the reactor's mutex r.mtx that are still held after Receive has returned - must be 0)        *)
+(* THE MUTEX.  The Status / Block / NoBlock branches of Receive work under r.mtx.RLock(); the writers are the      *)
+(* event loop (setMaxPeerHeight on every StatusResponse of any peer, setSyncHeight on every processed block) and   *)
+(* startSync / endSync / Stop.  A read lock that outlives Receive blocks the next writer for ever, and a pending   *)
+(* writer blocks every later reader: all peers' receive routines hang in Receive, fast sync never ends, the        *)
+(* reactor cannot be stopped.  The BlockResponse branch decodes the block a second time and, if that fails,        *)
+(* returns WITHOUT RUnlock - unreachable as long as ValidateMsg has decoded the very same block successfully       *)
+(* just before.  NAMED DEVIATION "bc-validate-nilonly" (a seeded variant, never the code of /repo): ValidateMsg    *)
+(* only tests Block # nil; then a present but undecodable block reaches that return and rl grows.                  *)
+(* Specified for EVERY message, accepted or refused: BcLockFree, and the AFTERMATH returns: an honest peer's       *)
+(* StatusResponse with a higher height handled by the event loop (a writer), its Block / NoBlock responses, Stop.  *)
 (* messages: [t |-> "statusreq"]  [t |-> "request", h]  [t |-> "status", base, h]  [t |-> "noblock", h]            *)
 (*           [t |-> "block", kind]: "good" a decodable block, "nil" no Block member, "noheader" a Block without   *)
 (*           header, "nocommit" a block of height > 1 without LastCommit, "junkcommit" a LastCommit with a         *)
@@ -150,6 +161,9 @@ RecvPex(st, m) ==
 \* types.BlockFromProto succeeds (as coded: a block of the FIRST height may come without LastCommit - it is
 \* refused later, by validateBlock)
 BlockDecodes(k, top) == k = "good" \/ (k = "nocommit" /\ top = 0)
+BcLockFree(st) == st.rl = 0
+\* the aftermath of a message: "ok" or "hang" (a writer meets a leaked read lock)
+BcAftermath(st) == IF st.rl = 0 THEN "ok" ELSE "hang"
 RecvBc(st, m) ==
   LET R(res, eff) == [res |-> res, eff |-> eff, st |-> st] IN
   IF m.t = "unknown" THEN R("stop", "none")
@@ -164,6 +178,9 @@ RecvBc(st, m) ==
          IF m.h < 1 THEN R("stop", "none")
          ELSE IF st.sync THEN R("ok", "event-noblock") ELSE R("ok", "none")
   ELSE \* "block"
-       IF ~BlockDecodes(m.kind, st.top) THEN R("stop", "none")
+       IF ~BlockDecodes(m.kind, st.top) THEN
+            (IF "bc-validate-nilonly" \in ImplR /\ m.kind # "nil"
+             THEN [res |-> "ok", eff |-> "none", st |-> [st EXCEPT !.rl = @ + 1]]      \* logged, RLock never released
+             ELSE R("stop", "none"))
        ELSE IF st.sync THEN R("ok", "event-block") ELSE R("ok", "none")
 =================================================================================
